@@ -252,6 +252,7 @@ def check(spec, ctx):
         "json": (json.dumps(d), "json"),
     }
     for name, (obj, mode) in inputs.items():
+        before = copy.deepcopy(obj.__dict__ if name == "attributes" else obj)
         try:
             objs[name] = data.geometry_validate(obj, mode=mode)
             results[name] = True
@@ -260,6 +261,21 @@ def check(spec, ctx):
         except Exception as e:
             ctx.fail(f"geometry_validate(mode={mode}) raised {type(e).__name__}: {e} (must be ValueError or succeed)", spec, repr(e), "ValueError", kind="wrong_exception")
             results[name] = False
+        # validation is a pure function of its input: the caller's object is untouched and a second
+        # validation of the very same object gives the same verdict (and an equal geometry)
+        after = obj.__dict__ if name == "attributes" else obj
+        if after != before:
+            ctx.fail(f"geometry_validate(mode={mode}) modified its input: {str(before)[:120]} -> {str(after)[:120]}", spec, str(after)[:200], str(before)[:200], kind="input_mutated")
+        try:
+            second = data.geometry_validate(obj, mode=mode)
+            ok2 = True
+        except ValueError:
+            second, ok2 = None, False
+        except Exception as e:
+            ctx.fail(f"second geometry_validate(mode={mode}) of the same object raised {type(e).__name__}", spec, repr(e), None, kind="wrong_exception")
+            ok2 = results[name]
+        if ok2 != results[name] or (ok2 and second != objs[name]):
+            ctx.fail(f"validating the same {name} object twice gives different results ({results[name]} then {ok2})", spec, [results[name], ok2], None, kind="not_repeatable")
 
     for name, ok in results.items():
         if ok and not exp:
